@@ -128,6 +128,11 @@ def take_rules(F, rep, P):
             n += 1
             what = "%s: drain removes the counted prefix" % strip_generics(b.path)
             rty = (t["f"].get("args") or [""])[-1]
+            rt0 = b.j["locals"][0]["ty"]
+            if rty == "std::ops::RangeFull" and not ("Result<usize" in rt0 or rt0 == "usize"):
+                # emptying the whole buffer in a function that hands nothing out (a seek): the same as clear()
+                rep.ok(R, "%s: drain(..) empties the buffer where nothing is handed out" % strip_generics(b.path), loc_of(b, t))
+                continue
             if rty not in ("std::ops::Range<usize>", "std::ops::RangeTo<usize>"):
                 rep.bad(R, what, loc_of(b, t), "the range drained is a %s, not a prefix `0..n`: more (or something other) than the samples handed to the caller leaves the buffer" % rty)
                 continue
